@@ -103,7 +103,9 @@ theorem step_dinv {ts done : List Token} {b b' : Builder} (t : Token) (hok : Bui
       unfold Builder.prefix at hr
       split at hr
       · cases hr
-      · dsimp only at hr
+      · split at hr
+        · cases hr
+        dsimp only at hr
         cases heb : b.eb with
         | none => rw [heb] at hr; cases hr
         | some eb =>
@@ -217,7 +219,7 @@ theorem step_dinv {ts done : List Token} {b b' : Builder} (t : Token) (hok : Bui
   | comment t sp =>
     simp only [Builder.step, Builder.comment, Step.ok.injEq] at hr
     subst hr
-    exact addLeaf_dinv (done' := done ++ [.comment t sp]) h hpre (.comment t.text) _ b.env (EnvApp.refl _)
+    exact addLeaf_dinv (done' := done ++ [.comment t sp]) h hpre (.comment (normalizeLineEnds t.text)) _ b.env (EnvApp.refl _)
       (by intro n w hh; cases hh) (by intro p n hh; cases hh)
       (fun k hk => get_add_other _ _ _ _ (fun he => hk (by rw [he])))
       (fun k hk => by
@@ -227,10 +229,14 @@ theorem step_dinv {ts done : List Token} {b b' : Builder} (t : Token) (hok : Bui
       ⟨t, sp, htok, get_add_self _ _ _, rfl⟩
       (fun s hs => by cases hs)
   | pi target content sp =>
-    simp only [Builder.step, Builder.processingInstruction, Step.ok.injEq] at hr
+    simp only [Builder.step] at hr
+    split at hr
+    · cases hr
+    rename_i hres
+    simp only [Builder.processingInstruction, Step.ok.injEq] at hr
     subst hr
     refine addLeaf_dinv (done' := done ++ [.pi target content sp]) h hpre
-      (.pi (b.env.internName target.text Env.noNamespace).2 (content.map (fun c => c.text))) _
+      (.pi (b.env.internName target.text Env.noNamespace).2 (content.map (fun c => normalizeLineEnds c.text))) _
       (b.env.internName target.text Env.noNamespace).1 (internName_app _ _ _)
       (by intro n w hh; cases hh) (by intro p n hh; cases hh) ?_ ?_ ?_ (fun s hs => by cases hs)
     · intro k hk
@@ -251,7 +257,7 @@ theorem step_dinv {ts done : List Token} {b b' : Builder} (t : Token) (hok : Bui
         · rcases hasKey_add_cases hk with rfl | hk
           · exact .inr rfl
           · exact .inl hk
-    · refine ⟨target, content, sp, htok, ?_, internName_get _ _ _, rfl, ?_⟩
+    · refine ⟨target, content, sp, htok, ?_, internName_get _ _ _, rfl, ?_, by simpa using hres⟩
       · cases content with
         | none => exact get_add_self _ _ _
         | some c =>
